@@ -87,19 +87,21 @@ Definition not_info (k : kwline) : bool := match k with KLInfo _ => false | _ =>
 
 (* ---- the whole file ------------------------------------------------------------------------------------ *)
 Record v2gfile := mkv2g {
+  q_v2 : bool;                             (* [Version] 2.0; false: a "[Version] 1.0" file that carries version-2 keywords,
+                                              read by the version-2 reader and un-normalised at the end *)
   q_opts : list ofield;
   q_kws : list kwline;
   q_records : list (num * list num);
   q_noise : list (list num);               (* noise records of five numbers each, the frequency first *)
   q_end : bool }.
 
-Definition q_hdr (f : v2gfile) : option hdr := kws_run (opts_hdr true (q_opts f)) (q_kws f).
+Definition q_hdr (f : v2gfile) : option hdr := kws_run (opts_hdr (q_v2 f) (q_opts f)) (q_kws f).
 
 Definition noise_part (h : hdr) (f : v2gfile) : list rtok :=
   if 0 <=? h_nnoise h then [RKw KNoiseData; nl] ++ flat_map (fun l => map wnum l ++ [nl]) (q_noise f) else [].
 
 Definition v2g_stream (h : hdr) (f : v2gfile) : list rtok :=
-  [RKw KVersion; RWord txt_2_0 false; nl; ROption] ++ render_opts (q_opts f) ++ [RNl true] ++
+  [RKw KVersion; RWord (if q_v2 f then txt_2_0 else txt_1_0) false; nl; ROption] ++ render_opts (q_opts f) ++ [RNl true] ++
   render_kws (q_kws f) ++
   [RKw KNetworkData; nl] ++
   flat_map (fun r => wnum (fst r) :: map wnum (snd r) ++ [nl]) (q_records f) ++
@@ -126,7 +128,7 @@ Fixpoint noise_ok (prev : option xnum) (l : list (list num)) : Prop :=
 
 Definition v2g_wf (h : hdr) (f : v2gfile) : Prop :=
   Forall ofield_ok (q_opts f) /\
-  kws_ok (opts_hdr true (q_opts f)) (q_kws f) /\
+  kws_ok (opts_hdr (q_v2 f) (q_opts f)) (q_kws f) /\
   q_hdr f = Some h /\
   0 <= h_ports h <= 46340 /\
   (h_ports h = 2 <-> h_order h <> None) /\
@@ -138,12 +140,13 @@ Definition v2g_wf (h : hdr) (f : v2gfile) : Prop :=
 
 Definition v2g_result (h : hdr) (f : v2gfile) : tsobj :=
   let n := Z.to_nat (h_ports h) in
-  mkobj true (h_type h) (h_fmt h) n
+  finalize h
+    (mkobj (h_v2 h) (h_type h) (h_fmt h) n
         (map (fun r => xmul (XQ (h_mult h)) (n_val (fst r))) (q_records f))
         (z0_list h n)
-        (map (fun r => build_matrix (h_matrix h) (v2_transpose h) n (map n_val (snd r))) (q_records f)).
+        (map (fun r => build_matrix (h_matrix h) (v2_transpose h) n (map n_val (snd r))) (q_records f))).
 
 (* the same file without its noise block (and without the [Number of Noise Frequencies] lines) *)
 Definition is_nnoise (k : kwline) : bool := match k with KLNNoise _ => true | _ => false end.
 Definition drop_noise (f : v2gfile) : v2gfile :=
-  mkv2g (q_opts f) (filter (fun k => negb (is_nnoise k)) (q_kws f)) (q_records f) [] (q_end f).
+  mkv2g (q_v2 f) (q_opts f) (filter (fun k => negb (is_nnoise k)) (q_kws f)) (q_records f) [] (q_end f).
